@@ -736,6 +736,14 @@ def run_displacement_case(ctx, am, i):
     ln = np.linalg.norm(exp, axis=1)
     ok = ln < 0.98 * O.unique_image_radius(vr, pbc)
     rec.count('displacement:rows-exempt(no unique nearest image)', int((~ok).sum()))
+    # the periodic separation is, by its own statement (C02), the shortest of the 27 candidates with shifts -1, 0, +1:
+    # a position difference whose true nearest image needs a shift of two cells (atoms wrapped into a deformed cell
+    # while the reference box is the other one) is beyond its reach - such rows are exempt here and counted
+    # (found by thorough seed 4, case displacement:310; the monitor on displacement still judges them against min27)
+    ln27 = G.min27(pos1 - pos0, vr, pbc)[0]
+    reach = ln27 <= ln + 1e-9 * L
+    rec.count('displacement:rows-exempt(beyond the 27-image reach)', int((ok & ~reach).sum()))
+    ok = ok & reach
     rec.close(1e-11 * L, res[ok], exp[ok], 'displacement is the position difference taken through the boundaries of the reference box',
               f'displacement:{ref}:{field}', pbc=pbc)
     rec.count('displacement:rows-checked', int(ok.sum()))
